@@ -447,7 +447,52 @@ def check_repeated_section_text(ctx):
                                       'part %d: the problem is on whole-file line %d; reported lines %s' % (part, want, lines))
 
 
+def check_private_report(ctx):
+    """the same walk over the sections of a file on a report object of the grader's own (not the default one): after stop_sections
+    or after resolving THAT report its submission holds the original text again and no line offset is left"""
+    from pedal.core.report import Report
+    from pedal.core.commands import contextualize_report
+    from pedal.source import separate_into_sections, next_section, verify
+    from pedal.source.sections import stop_sections
+    from pedal.resolvers import simple
+    rng = ctx.rng
+    for t in range(ctx.pick(12, 120)):
+        f = gen_file(rng)
+        text = f['text']
+        for ending in ('resolve', 'stop_sections', 'resolve-by-keyword'):
+            for independent in (True, False):
+                r = Report()
+                case = {'scenario': 'private-report', 'text': text, 'pattern': f['pattern'], 'ending': ending, 'independent': independent}
+                try:
+                    contextualize_report(text, report=r)
+                    if f['pattern'] is None:
+                        separate_into_sections(independent=independent, report=r)
+                    else:
+                        separate_into_sections(pattern=f['pattern'], independent=independent, report=r)
+                    for k in range(rng.randint(1, f['n_markers'] + 1)):
+                        next_section(report=r)
+                        verify(report=r)
+                    if ending == 'resolve':
+                        simple.resolve(r)
+                    elif ending == 'resolve-by-keyword':
+                        simple.resolve(report=r)
+                    else:
+                        stop_sections(report=r)
+                except Exception as e:
+                    ctx.violation('C17|tool-raised|private-report|%s' % type(e).__name__, case, traceback.format_exc()[-500:])
+                    continue
+                ctx.count('restorations_checked')
+                ctx.count('restorations_checked_on_a_private_report')
+                ctx.case('private:%s:%s:%s' % (ending, independent, text[:400]))
+                if r.submission.main_code != text:
+                    ctx.violation('C17|main-code-not-restored|%s|private-report' % ending.split('-')[0], case, {'got': r.submission.main_code[-200:]})
+                elif any(r.submission.line_offsets.values()):
+                    ctx.violation('C17|line-offset-left-behind|%s|private-report' % ending.split('-')[0], case, dict(r.submission.line_offsets))
+
+
 def run(ctx):
+    if ctx.shard == 2:
+        check_private_report(ctx)
     if ctx.shard == 1:
         check_repeated_section_text(ctx)
     from props import sbx_common as sc
@@ -463,6 +508,8 @@ def run(ctx):
 
 
 def replay(ctx, case):
+    if case.get('scenario') == 'private-report':
+        return check_private_report(ctx)
     if case.get('scenario') == 'repeated-section-text':
         return check_repeated_section_text(ctx)
     case = dict(case)
